@@ -46,8 +46,14 @@ func (pass *DisjunctionWithNullToOptional) processDisjunction(visitor *Visitor, 
 		return def, nil
 	}
 
+	nonNullTypes := disjunction.Branches.NonNullTypes()
+	if len(nonNullTypes) != 1 {
+		// `null | null`
+		return def, nil
+	}
+
 	// type | null
-	finalType := disjunction.Branches.NonNullTypes()[0]
+	finalType := nonNullTypes[0]
 	finalType.Nullable = true
 	finalType.AddToPassesTrail(fmt.Sprintf("DisjunctionWithNullToOptional[%[1]s|null → %[1]s?]", ast.TypeName(finalType)))
 
